@@ -142,7 +142,7 @@ Lemma n8 n : (n < 256)%N -> (n < 2 ^ N.of_nat 8)%N.
 Proof. intros H. exact H. Qed.
 
 (* ---------- BL ---------- *)
-From Trion Require Import Arm.CodecSweepBlAll.
+From Trion Require Import Arm.BlEncProofs.
 
 Lemma out_bl v : outside v (-16777216) 16777216 -> codec_ok (Bl v) = true.
 Proof.
